@@ -136,12 +136,12 @@ Proof.
   rewrite !skipn_map, !firstn_map, <- IH.
   pose proof (zeta_at_range (S m)) as Rz. set (z := zeta_at (S m)) in *.
   f_equal; [|f_equal].
-  - rewrite <- (map_map modq (k_mul z)), map2_map. rewrite map_map. rewrite (map2_map k_add modq (fun x => k_mul z (modq x))).
+  - rewrite (map_map modq (k_mul z)). rewrite (map2_map k_add modq (fun x => k_mul z (modq x))).
     apply map2_ext. intros a b. unfold fwd_lo, modq.
     rewrite (k_mul_spec z (b mod q)) by (auto using mod_q_range).
     rewrite k_add_spec by (auto using mod_q_range).
     rewrite Zmult_mod_idemp_r, Zplus_mod_idemp_l. reflexivity.
-  - rewrite map_map. rewrite (map2_map k_sub modq (fun x => k_mul z (modq x))).
+  - rewrite (map_map modq (k_mul z)). rewrite (map2_map k_sub modq (fun x => k_mul z (modq x))).
     apply map2_ext. intros a b. unfold fwd_hi, modq.
     rewrite (k_mul_spec z (b mod q)) by (auto using mod_q_range).
     rewrite k_sub_spec by (auto using mod_q_range).
@@ -169,7 +169,7 @@ Definition ntt_outer :=
     let '(wh, m, _) := FIPS.while_ 128 mid_cond (ntt_mid len) (wh, m, O) in
     (wh, m, Nat.div len 2).
 
-Lemma NTT_unfold w : FIPS.NTT w =
+Lemma NTT_unfold (w : list Z) : FIPS.NTT w =
   let '(wh, _, _) := FIPS.while_ 8 (fun '(wh, m, len) => Nat.leb 1 len) ntt_outer (w, O, 128%nat) in wh.
 Proof. reflexivity. Qed.
 
@@ -182,7 +182,7 @@ Proof.
   cbn [app length] in E. rewrite E. reflexivity.
 Qed.
 
-Theorem NTT_eq w : length w = 256%nat -> FIPS.NTT w = ntt (map modq w).
+Theorem NTT_eq (w : list Z) : length w = 256%nat -> FIPS.NTT w = ntt (map modq w).
 Proof.
   intros L. rewrite NTT_unfold, ntt_unfold.
   assert (ST : forall r cond body (st : list Z * nat * nat),
@@ -211,4 +211,199 @@ Proof.
   rewrite !zblocks_model.
   repeat (rewrite (map_modq_canon (ntt_blocks _ _ _ _)) by (rewrite <- zblocks_model; apply canon_zblocks)).
   reflexivity.
+Qed.
+
+(* ------------------------------------------------------------------ *)
+(* inverse                                                              *)
+(* ------------------------------------------------------------------ *)
+Definition inv_lo (a b : Z) : Z := (a + b) mod q.
+Definition inv_hi (z a b : Z) : Z := (z * ((a - b) mod q)) mod q.
+
+Definition intt_inner (z : Z) (len : nat) :=
+  fun (j : nat) (w : list Z) =>
+    let t := nth j w 0 in
+    let w := FIPS.set_nth j ((t + nth (j + len) w 0) mod FIPS.q) w in
+    let w := FIPS.set_nth (j + len) ((t - nth (j + len) w 0) mod FIPS.q) w in
+    FIPS.set_nth (j + len) ((z * nth (j + len) w 0) mod FIPS.q) w.
+
+Lemma intt_inner_eq z len : forall lo hi pre mid post, length lo = length hi -> (length lo + length mid = len)%nat ->
+  FIPS.for_ (length pre) (length lo) (intt_inner z len) (pre ++ lo ++ mid ++ hi ++ post) =
+  pre ++ map2 inv_lo lo hi ++ mid ++ map2 (inv_hi z) lo hi ++ post.
+Proof.
+  induction lo as [|a lo IH]; intros [|b hi] pre mid post LH LL; try discriminate; [reflexivity|].
+  cbn [length] in *. cbn [FIPS.for_ map2]. unfold intt_inner at 2. change FIPS.q with q.
+  assert (L2 : forall x, (length pre + len)%nat = length (pre ++ (x :: lo) ++ mid)).
+  { intros x. rewrite !app_length. cbn [length]. lia. }
+  assert (R : forall x y, pre ++ (x :: lo) ++ mid ++ (y :: hi) ++ post = (pre ++ (x :: lo) ++ mid) ++ y :: (hi ++ post)).
+  { intros x y. rewrite <- !app_assoc. reflexivity. }
+  assert (E1 : nth (length pre) (pre ++ (a :: lo) ++ mid ++ (b :: hi) ++ post) 0 = a) by apply nth_mid.
+  assert (E2 : forall x y, nth (length pre + len) (pre ++ (x :: lo) ++ mid ++ (y :: hi) ++ post) 0 = y).
+  { intros x y. rewrite R, (L2 x). apply nth_mid. }
+  assert (S2 : forall x y v, FIPS.set_nth (length pre + len) v (pre ++ (x :: lo) ++ mid ++ (y :: hi) ++ post) =
+                             pre ++ (x :: lo) ++ mid ++ (v :: hi) ++ post).
+  { intros x y v. rewrite R, (L2 x), set_nth_app_mid, <- !app_assoc. reflexivity. }
+  rewrite E1, E2. cbn [app]. rewrite set_nth_app_mid.
+  change (pre ++ (a + b) mod q :: lo ++ mid ++ b :: hi ++ post)
+    with (pre ++ ((a + b) mod q :: lo) ++ mid ++ (b :: hi) ++ post).
+  rewrite E2, S2, E2, S2.
+  fold (inv_lo a b) (inv_hi z a b).
+  replace (pre ++ (inv_lo a b :: lo) ++ mid ++ (inv_hi z a b :: hi) ++ post)
+    with ((pre ++ [inv_lo a b]) ++ lo ++ (mid ++ [inv_hi z a b]) ++ hi ++ post)
+    by (rewrite <- !app_assoc; reflexivity).
+  replace (S (length pre)) with (length (pre ++ [inv_lo a b])) by (rewrite app_length; cbn [length]; lia).
+  rewrite IH by (try rewrite app_length; cbn [length]; lia).
+  rewrite <- !app_assoc. reflexivity.
+Qed.
+
+Fixpoint ziblocks (nb len m : nat) (p : list Z) : list Z :=
+  match nb with
+  | O => []
+  | S nb' =>
+      let lo := firstn len p in
+      let hi := firstn len (skipn len p) in
+      let z := - zeta_at (Nat.pred m) in
+      map2 inv_lo lo hi ++ map2 (inv_hi z) lo hi ++ ziblocks nb' len (Nat.pred m) (skipn (2 * len) p)
+  end.
+
+Definition intt_mid (len : nat) :=
+  fun '((w, m, start) : list Z * nat * nat) =>
+    let m := Nat.pred m in
+    let z := - FIPS.zetas m in
+    let w := FIPS.for_ start len (intt_inner z len) w in
+    (w, m, (start + 2 * len)%nat).
+
+Lemma ziblocks_length len : forall nb m p, length p = (nb * (2 * len))%nat -> length (ziblocks nb len m p) = (nb * (2 * len))%nat.
+Proof.
+  induction nb as [|nb IH]; intros m p L; [reflexivity|]. cbn [ziblocks].
+  rewrite !app_length, !map2_length by (rewrite !firstn_length, !skipn_length; lia).
+  rewrite firstn_length, IH by (rewrite skipn_length; lia). lia.
+Qed.
+
+Lemma intt_mid_eq len : (0 < len)%nat -> forall nb fuel done rest m, (nb <= fuel)%nat ->
+  length rest = (nb * (2 * len))%nat -> (length done + length rest = 256)%nat -> (nb + 1 <= m <= 256)%nat ->
+  FIPS.while_ fuel mid_cond (intt_mid len) (done ++ rest, m, length done) =
+  (done ++ ziblocks nb len m rest, (m - nb)%nat, 256%nat).
+Proof.
+  intros Hlen. induction nb as [|nb IH]; intros fuel done rest m Hf Lr L256 Hm.
+  - destruct rest; [|cbn in Lr; lia]. cbn [length] in L256. rewrite Nat.add_0_r in *. rewrite L256, Nat.sub_0_r.
+    destruct fuel; cbn [FIPS.while_ mid_cond ziblocks]; reflexivity.
+  - destruct fuel as [|fuel]; [lia|]. cbn [FIPS.while_]. unfold mid_cond at 1.
+    replace (Nat.ltb (length done) 256) with true by (symmetry; apply Nat.ltb_lt; lia).
+    unfold intt_mid at 2. cbv zeta.
+    rewrite zetas_eq by lia.
+    set (lo := firstn len rest). set (hi := firstn len (skipn len rest)). set (rest' := skipn (2 * len) rest).
+    assert (Llo : length lo = len) by (unfold lo; rewrite firstn_length; lia).
+    assert (Lhi : length hi = len) by (unfold hi; rewrite firstn_length, skipn_length; lia).
+    assert (ER : rest = lo ++ hi ++ rest').
+    { unfold lo, hi, rest'. rewrite <- (firstn_skipn len rest) at 1. f_equal.
+      rewrite <- (firstn_skipn len (skipn len rest)) at 1. f_equal. rewrite skipn_add. f_equal. lia. }
+    rewrite ER at 1.
+    set (z := - zeta_at (Nat.pred m)).
+    pose proof (intt_inner_eq z len lo hi done [] rest' ltac:(lia) ltac:(cbn [length]; lia)) as E.
+    cbn [app] in E. rewrite Llo in E. rewrite E. clear E.
+    replace (done ++ map2 inv_lo lo hi ++ map2 (inv_hi z) lo hi ++ rest')
+      with ((done ++ map2 inv_lo lo hi ++ map2 (inv_hi z) lo hi) ++ rest')
+      by (rewrite <- !app_assoc; reflexivity).
+    replace (length done + 2 * len)%nat
+      with (length (done ++ map2 inv_lo lo hi ++ map2 (inv_hi z) lo hi))
+      by (rewrite !app_length, !map2_length by lia; lia).
+    assert (Lr' : length rest' = (nb * (2 * len))%nat) by (unfold rest'; rewrite skipn_length; lia).
+    rewrite IH; [| lia | exact Lr' | rewrite !app_length, !map2_length by lia; lia | lia].
+    cbn [ziblocks]. fold lo hi rest' z. rewrite <- !app_assoc.
+    replace (Nat.pred m - nb)%nat with (m - S nb)%nat by lia. reflexivity.
+Qed.
+
+Lemma map_map2 {A B C D} (g : C -> D) (f : A -> B -> C) a b : map g (map2 f a b) = map2 (fun x y => g (f x y)) a b.
+Proof. revert b; induction a as [|x a IH]; intros [|y b]; cbn; auto. f_equal. apply IH. Qed.
+
+Lemma map2_ext_in (f g : Z -> Z -> Z) a b : canon a -> canon b ->
+  (forall x y, 0 <= x < q -> 0 <= y < q -> f x y = g x y) -> map2 f a b = map2 g a b.
+Proof.
+  intros Ca Cb E. revert b Cb; induction Ca as [|x a Hx Ca IH]; intros [|y b] Cb; cbn; auto.
+  inversion Cb; subst. rewrite E by auto. f_equal. apply IH. assumption.
+Qed.
+
+Lemma ziblocks_model len : forall nb m p, canon p -> ziblocks nb len m p = intt_blocks nb len m p.
+Proof.
+  induction nb as [|nb IH]; intros m p Cp; [reflexivity|]. cbn [ziblocks intt_blocks].
+  rewrite IH by (apply canon_skipn; exact Cp).
+  pose proof (zeta_at_range (Nat.pred m)) as Rz.
+  assert (C1 : canon (firstn len p)) by (apply canon_firstn; exact Cp).
+  assert (C2 : canon (firstn len (skipn len p))) by (apply canon_firstn, canon_skipn; exact Cp).
+  f_equal; [|f_equal].
+  - apply map2_ext_in; auto. intros x y Hx Hy. unfold inv_lo. symmetry. apply k_add_spec; auto.
+  - rewrite map_map2. apply map2_ext_in; auto. intros x y Hx Hy. unfold inv_hi.
+    rewrite k_sub_spec, k_neg_spec by auto. rewrite k_mul_spec by (auto using mod_q_range).
+    rewrite Zmult_mod_idemp_l. reflexivity.
+Qed.
+
+Lemma canon_ziblocks len : forall nb m p, canon (ziblocks nb len m p).
+Proof.
+  induction nb as [|nb IH]; intros m p; cbn [ziblocks]; [constructor|].
+  apply canon_app. split; [|apply canon_app; split; [|apply IH]];
+    apply canon_map2_mod; intros; apply mod_q_range.
+Qed.
+
+Lemma canon_intt_blocks len nb m p : canon p -> canon (intt_blocks nb len m p).
+Proof. intros C. rewrite <- ziblocks_model by exact C. apply canon_ziblocks. Qed.
+
+Lemma intt_blocks_len len nb m p : canon p -> length p = 256%nat -> (nb * (2 * len) = 256)%nat ->
+  length (intt_blocks nb len m p) = 256%nat.
+Proof. intros C L E. rewrite <- ziblocks_model by exact C. rewrite ziblocks_length by lia. exact E. Qed.
+
+Definition intt_outer :=
+  fun '((w, m, len) : list Z * nat * nat) =>
+    let '(w, m, _) := FIPS.while_ 128 mid_cond (intt_mid len) (w, m, O) in
+    (w, m, (2 * len)%nat).
+
+Lemma NTT_inv_unfold (wh : list Z) : FIPS.NTT_inv wh =
+  let '(w, _, _) := FIPS.while_ 8 (fun '(w, m, len) => Nat.ltb len 256) intt_outer (wh, 256%nat, 1%nat) in
+  FIPS.array 256 (fun j => (8347681 * nth j w 0) mod FIPS.q).
+Proof. reflexivity. Qed.
+
+Lemma intt_outer_eq w m len nb : length w = 256%nat -> (0 < len)%nat -> (nb * (2 * len) = 256)%nat ->
+  (nb <= 128)%nat -> (nb + 1 <= m <= 256)%nat ->
+  intt_outer (w, m, len) = (ziblocks nb len m w, (m - nb)%nat, (2 * len)%nat).
+Proof.
+  intros L Hl Hn Hb Hm. unfold intt_outer.
+  pose proof (intt_mid_eq len Hl nb 128 [] w m Hb ltac:(lia) ltac:(cbn [length]; lia) Hm) as E.
+  cbn [app length] in E. rewrite E. reflexivity.
+Qed.
+
+Theorem NTT_inv_eq (w : list Z) : cpoly w -> FIPS.NTT_inv w = intt w.
+Proof.
+  intros [L C]. rewrite NTT_inv_unfold, intt_unfold.
+  assert (ST : forall r cond body (st : list Z * nat * nat),
+     FIPS.while_ (S r) cond body st = if cond st then FIPS.while_ r cond body (body st) else st) by reflexivity.
+  assert (ZL : forall nb len m p, length p = 256%nat -> (nb * (2 * len) = 256)%nat -> length (ziblocks nb len m p) = 256%nat).
+  { intros nb len m p Lp E. rewrite ziblocks_length by lia. exact E. }
+  rewrite ST. cbv beta iota. change (Nat.ltb 1 256) with true. cbv iota.
+  rewrite (intt_outer_eq w 256 1 128) by (cbn; lia). change (2 * 1)%nat with 2%nat. change (256 - 128)%nat with 128%nat.
+  rewrite ST. cbv beta iota. change (Nat.ltb 2 256) with true. cbv iota.
+  rewrite (intt_outer_eq _ 128 2 64) by (try apply ZL; cbn; lia). change (2 * 2)%nat with 4%nat. change (128 - 64)%nat with 64%nat.
+  rewrite ST. cbv beta iota. change (Nat.ltb 4 256) with true. cbv iota.
+  rewrite (intt_outer_eq _ 64 4 32) by (try (repeat apply ZL; auto); cbn; lia). change (2 * 4)%nat with 8%nat. change (64 - 32)%nat with 32%nat.
+  rewrite ST. cbv beta iota. change (Nat.ltb 8 256) with true. cbv iota.
+  rewrite (intt_outer_eq _ 32 8 16) by (try (repeat apply ZL; auto); cbn; lia). change (2 * 8)%nat with 16%nat. change (32 - 16)%nat with 16%nat.
+  rewrite ST. cbv beta iota. change (Nat.ltb 16 256) with true. cbv iota.
+  rewrite (intt_outer_eq _ 16 16 8) by (try (repeat apply ZL; auto); cbn; lia). change (2 * 16)%nat with 32%nat. change (16 - 8)%nat with 8%nat.
+  rewrite ST. cbv beta iota. change (Nat.ltb 32 256) with true. cbv iota.
+  rewrite (intt_outer_eq _ 8 32 4) by (try (repeat apply ZL; auto); cbn; lia). change (2 * 32)%nat with 64%nat. change (8 - 4)%nat with 4%nat.
+  rewrite ST. cbv beta iota. change (Nat.ltb 64 256) with true. cbv iota.
+  rewrite (intt_outer_eq _ 4 64 2) by (try (repeat apply ZL; auto); cbn; lia). change (2 * 64)%nat with 128%nat. change (4 - 2)%nat with 2%nat.
+  rewrite ST. cbv beta iota. change (Nat.ltb 128 256) with true. cbv iota.
+  rewrite (intt_outer_eq _ 2 128 1) by (try (repeat apply ZL; auto); cbn; lia). change (2 * 128)%nat with 256%nat. change (2 - 1)%nat with 1%nat.
+  cbn [FIPS.while_].
+  rewrite (ziblocks_model 1 128 256 w C).
+  repeat match goal with |- context [ziblocks ?nb ?len ?m (intt_blocks ?a ?b ?c ?d)] =>
+    rewrite (ziblocks_model len nb m (intt_blocks a b c d)) by (repeat apply canon_intt_blocks; exact C) end.
+  set (W := intt_blocks 1 128 2 _).
+  rewrite array_map.
+  assert (LW : length W = 256%nat /\ canon W).
+  { unfold W. split; [|repeat apply canon_intt_blocks; exact C].
+    repeat (apply intt_blocks_len; [repeat apply canon_intt_blocks; exact C | | reflexivity]). exact L. }
+  destruct LW as [LW CW].
+  transitivity (map (fun x => (8347681 * x) mod FIPS.q) W); [exact (map_nth_seq_n (fun x => (8347681 * x) mod FIPS.q) W 0 256 LW)|].
+  apply map_ext_in. intros x Hx. unfold canon in CW. rewrite Forall_forall in CW.
+  symmetry. apply k_mul_spec; [vm_compute; split; congruence | apply CW; exact Hx].
 Qed.
